@@ -422,13 +422,26 @@ Section Struct.
   Lemma tell_known s x (y : Y num) v : dget x (data s) = Some v -> tell s x y = s.
   Proof. unfold L1D.tell. intros ->. reflexivity. Qed.
 
-  Lemma tell_sinv s x (y : Y num) : SInv s -> L1D.in_bounds ltb eqb P x = true -> SInv (tell s x y).
+  (* tell of a new in-bounds point, before the rescale test *)
+  Definition tell_core (s : st) (x : num) (y : Y num) : st :=
+    update_losses
+      (update_scale (L1D.mk (dset x y (data s)) (remove x (pend s)) (insert x (nb s)) (insert x (nbc s))
+                            (los s) (losc s) (bbx s) (bby s) (sx s) (sy s) (osy s) (mgrx s)) x y) x true.
+
+  Lemma tell_unfold s x (y : Y num) : dget x (data s) = None -> L1D.in_bounds ltb eqb P x = true ->
+    tell s x y =
+    if ltb (mul (factor P) (osy (tell_core s x y))) (sy (tell_core s x y))
+    then (let s4 := sweep (tell_core s x y) in
+          L1D.mk (data s4) (pend s4) (nb s4) (nbc s4) (los s4) (losc s4) (bbx s4) (bby s4)
+                 (sx s4) (sy s4) (sy s4) (mgrx s4))
+    else tell_core s x y.
+  Proof. intros Hd Hb. unfold L1D.tell, tell_core. rewrite Hd, Hb. reflexivity. Qed.
+
+  Lemma tell_core_sinv s x (y : Y num) : SInv s -> dget x (data s) = None -> SInv (tell_core s x y).
   Proof.
-    intros HI Hb. unfold L1D.tell. destruct (dget x (data s)) as [v|] eqn:Hd; [exact HI|].
-    rewrite Hb. cbn [negb].
-    set (s1 := L1D.mk (data _) (pend _) (insert x (nb _)) (insert x (nbc _)) (los _) (losc _)
-                      (bbx _) (bby _) (sx _) (sy _) (osy _) (mgrx _)).
-    cbn [data pend nb nbc los losc bbx bby sx sy osy mgrx] in s1.
+    intros HI Hd. unfold tell_core.
+    set (s1 := L1D.mk (dset x y (data s)) (remove x (pend s)) (insert x (nb s)) (insert x (nbc s))
+                      (los s) (losc s) (bbx s) (bby s) (sx s) (sy s) (osy s) (mgrx s)).
     set (s2 := update_scale s1 x y).
     destruct (update_scale_frame s1 x y) as [U1 [U2 [U3 [U4 [U5 U6]]]]]. fold s2 in U1, U2, U3, U4, U5, U6.
     assert (Hxnb : ~ In x (nb s)) by (intros Hin; apply (s_real HI) in Hin; congruence).
@@ -449,8 +462,7 @@ Section Struct.
     assert (Hxc1 : In x (insert x (nbc s))) by (apply (insert_In OL); left; reflexivity).
     assert (Hs1 : sorted (insert x (nb s))) by (apply (insert_sorted OL), (s_nb HI)).
     assert (Hsc1 : sorted (insert x (nbc s))) by (apply (insert_sorted OL), (s_nbc HI)).
-    assert (HI3 : SInv s3).
-    { constructor.
+    constructor.
       - rewrite V3. exact Hnb1.
       - rewrite V4. exact Hnbc1.
       - rewrite V2, U2. cbn [pend s1]. apply remove_sorted, (s_pend HI).
@@ -515,9 +527,16 @@ Section Struct.
                ++ unfold inside. cbn [fst snd]. apply andb_true_iff. rewrite Ex. split.
                   ** apply leb_spec. right; reflexivity.
                   ** destruct Hr0 as [_ [H _]]. exact H.
-            -- right; right. split; [reflexivity|]. split; [rewrite Ex; reflexivity|exact Eb]. }
-    destruct (ltb (mul (factor P) (osy s3)) (sy s3)); [|exact HI3].
-    eapply sinv_fields; [..|exact (sweep_sinv HI3)]; reflexivity.
+            -- right; right. split; [reflexivity|]. split; [rewrite Ex; reflexivity|exact Eb].
+  Qed.
+
+  Lemma tell_sinv s x (y : Y num) : SInv s -> L1D.in_bounds ltb eqb P x = true -> SInv (tell s x y).
+  Proof.
+    intros HI Hb. destruct (dget x (data s)) as [v|] eqn:Hd.
+    - rewrite (tell_known s x y Hd). exact HI.
+    - rewrite (@tell_unfold s x y Hd Hb). pose proof (@tell_core_sinv s x y HI Hd) as HI3.
+      destruct (ltb _ _); [|exact HI3].
+      eapply sinv_fields; [..|exact (sweep_sinv HI3)]; reflexivity.
   Qed.
 
   (* ---------------- the other operations, histories ---------------- *)
